@@ -841,6 +841,7 @@ func (r *Remote) noteRequest(m refwire.Msg) {
 // SeedMode configures AutoSeed.
 type SeedMode struct {
 	CorruptEvery int           // every n-th block is corrupted (0 = never)
+	CorruptWhole bool          // a corrupted block differs from the truth in every byte, not in one
 	Delay        time.Duration // answer delay (virtual)
 	Silent       bool          // never answers
 }
@@ -887,6 +888,9 @@ func (r *Remote) AutoSeed(m SeedMode) {
 				kind := "truth"
 				if m.CorruptEvery > 0 && n%m.CorruptEvery == 0 {
 					kind = "corrupt"
+					if m.CorruptWhole {
+						kind = "corrupt-whole"
+					}
 				}
 				r.mu.Lock()
 				still := r.out[k] > 0 && !r.choking
